@@ -706,11 +706,62 @@ pub fn run(ctx: &Ctx) -> Report {
         st = st.merge(part);
         base += n_p;
     }
+    // Folded form bodies take part in rules 4, 5 and 7 whatever the request method: 11 methods x 6 body defects / carriers
+    // placed in the body (a bad escape, the query carrier's algorithm next to an Authorization header, a carrier with
+    // missing parameters, a complete but unsigned-for carrier, an expired date, nothing wrong) with folding on, judged by
+    // the reference verifier (kind, code, status, provider consultation)
+    {
+        let methods = ["GET", "HEAD", "POST", "PUT", "DELETE", "PATCH", "OPTIONS", "TRACE", "CONNECT", "QUERY", "post"];
+        let n_m = (methods.len() * 6 * 2) as u64;
+        let b0 = base;
+        let part = par_sweep(n_m, |i, st| {
+            let mut x = i as usize;
+            let with_header_auth = x % 2 == 0;
+            x /= 2;
+            let kind = x % 6;
+            let method = methods[x / 6];
+            let mut plan = e2e::base_plan(Carrier::Header);
+            plan.method = method.into();
+            plan.headers.push(("Content-Type".into(), b"application/x-www-form-urlencoded".to_vec()));
+            plan.signed.push("content-type".into());
+            let fine = vec![(b"Action".to_vec(), b"ListUsers".to_vec())];
+            plan.body = b"Action=ListUsers".to_vec();
+            plan.body_params = Some(fine);
+            let built = build(&plan);
+            let mut w = WireReq::from_wire(&built.wire);
+            if !with_header_auth {
+                w.headers.retain(|h| !h.0.eq_ignore_ascii_case("authorization"));
+            }
+            w.body = match kind {
+                0 => b"Marker=%zz".to_vec(),
+                1 => b"X-Amz-Algorithm=AWS4-HMAC-SHA256".to_vec(),
+                2 => b"X-Amz-Algorithm=AWS4-HMAC-SHA256&X-Amz-Signature=00".to_vec(),
+                3 => format!("X-Amz-Algorithm=AWS4-HMAC-SHA256&X-Amz-Credential=AKIDEXAMPLE%2F20150830%2Fus-east-1%2Fservice%2Faws4_request&X-Amz-Date=20150830T123600Z&X-Amz-SignedHeaders=host&X-Amz-Signature={}", "0".repeat(64)).into_bytes(),
+                4 => format!("X-Amz-Algorithm=AWS4-HMAC-SHA256&X-Amz-Credential=AKIDEXAMPLE%2F20150830%2Fus-east-1%2Fservice%2Faws4_request&X-Amz-Date=20150829T123600Z&X-Amz-SignedHeaders=host&X-Amz-Signature={}", "0".repeat(64)).into_bytes(),
+                _ => b"Action=ListUsers".to_vec(),
+            };
+            let mut cfg = Cfg::basic(e2e::base_instant());
+            cfg.fold = true;
+            let case = Case { wire: w, cfg, prov: ProvSpec::standard() };
+            let before = st.violations.len();
+            let j = e2e::judge_into(b0 + i, &case, st);
+            if st.violations.len() > before {
+                if let Some(v) = st.violations.last_mut() {
+                    v.what = format!("folded-body-under-method-{}(body kind {}, {}):{}", method, kind, if with_header_auth { "with Authorization header" } else { "no Authorization header" }, v.what);
+                }
+            }
+            st.state(&(j.reference.stage as u8, j.reference.error.map(|k| k.name()), "methods"));
+            st.nontrivial(&(method, kind, with_header_auth, "methods"));
+            st.outcome(&format!("methods:{:?}", j.reference.stage));
+        });
+        st = st.merge(part);
+        base += n_m;
+    }
     taxonomy(&mut st, base);
     Report {
         stats: st,
         rule: format!(
-            "precedence automaton over the 14 documented stages; full product of defect vectors per carrier ({} header-carrier, {} query-carrier vectors): path {{ok, %zz, trailing %, above root, '*'}} x query {{ok, %zz, trailing %}} x carrier {{one, none, both, both with a non-SigV4 second carrier}} x algorithm x parameter syntax x missing ⊆ {{credential, signature, signed headers, date}}, each also with what is missing (or all four) present in the other carrier's spelling as a decoy (X-Amz-* query parameters next to header authentication, X-Amz-Date / Date headers next to query authentication) x requirements {{ok, host, always, conditional, prefix unsigned}} x date {{in window, malformed, expired, future, well-formed + trailing characters, well-formed cut short, expired / future by half a second}} x credential {{ok, 4 parts, 6 parts, region, service, terminator, date, all wrong, date with a leading zero / a plus sign / a blank in place of a zero pad}} x provider {{key, ExpiredToken, InvalidClientTokenId, IO, MalformedQueryString, foreign}} x signature {{ok, wrong, too long, empty, truncated}} x session token {{absent, present}}{}; every vector with at most two defects is validated right after the fully valid request on the same thread; every vector is materialised as a concrete request (correctly signed wherever a signature is still meaningful; 1 in 16 cross-checked against the reference verifier) and replayed on sigv4_validate_request: kind, code, status, downcast to SignatureError, status class and provider consultation compared with the automaton's terminal; plus 5 defective paths x 4 form content types (unknown / empty / no / UTF-8 charset) x 3 bodies (fine, undecodable, bad escape) with folding on, which are refused for their path; plus the kind->(code,status) table for every variant directly and through From<Box<dyn Error>>. states = (stage, vector prefix) pairs of the model; transitions = stage steps",
+            "precedence automaton over the 14 documented stages; full product of defect vectors per carrier ({} header-carrier, {} query-carrier vectors): path {{ok, %zz, trailing %, above root, '*'}} x query {{ok, %zz, trailing %}} x carrier {{one, none, both, both with a non-SigV4 second carrier}} x algorithm x parameter syntax x missing ⊆ {{credential, signature, signed headers, date}}, each also with what is missing (or all four) present in the other carrier's spelling as a decoy (X-Amz-* query parameters next to header authentication, X-Amz-Date / Date headers next to query authentication) x requirements {{ok, host, always, conditional, prefix unsigned}} x date {{in window, malformed, expired, future, well-formed + trailing characters, well-formed cut short, expired / future by half a second}} x credential {{ok, 4 parts, 6 parts, region, service, terminator, date, all wrong, date with a leading zero / a plus sign / a blank in place of a zero pad}} x provider {{key, ExpiredToken, InvalidClientTokenId, IO, MalformedQueryString, foreign}} x signature {{ok, wrong, too long, empty, truncated}} x session token {{absent, present}}{}; every vector with at most two defects is validated right after the fully valid request on the same thread; every vector is materialised as a concrete request (correctly signed wherever a signature is still meaningful; 1 in 16 cross-checked against the reference verifier) and replayed on sigv4_validate_request: kind, code, status, downcast to SignatureError, status class and provider consultation compared with the automaton's terminal; plus 5 defective paths x 4 form content types (unknown / empty / no / UTF-8 charset) x 3 bodies (fine, undecodable, bad escape) with folding on, which are refused for their path; plus 11 methods (GET, HEAD, POST, PUT, ..., an extension method, a lower-case one) x 6 folded form bodies that carry a rule-4 / rule-5 / rule-7 defect, a whole query carrier or nothing wrong x with / without an Authorization header, judged by the reference verifier; plus the kind->(code,status) table for every variant directly and through From<Box<dyn Error>>. states = (stage, vector prefix) pairs of the model; transitions = stage steps",
             sizes[0], sizes[1], if thorough { "" } else { " (quick: a sub-lattice with at least one defect variant per stage and missing ∈ {none, each singleton, all})" }
         ),
         bounds: json!({"header_vectors": sizes[0], "query_vectors": sizes[1]}),
